@@ -22,6 +22,7 @@ RULE = ("seeded project trees from vp/gen_project.py (flat/src packages, nested 
 ASSUMPTIONS = [
     "zip/deflate encoder (zipfile, zlib), sha256 (hashlib), csv reader and the file system are trusted; sha256 is uninterpreted in the model (the harness supplies digests it computes itself from the files and from the archive)",
     "files do not change while a build runs (the builder reads every file three times: hash, copy, stat)",
+    "each member once is an invariant of every wheel that is written (the writers refuse a name already in the archive, repo fix a8f41e9; theorem written_wheel_each_once); ConfigDistinct / DistinctTargets characterise when the build succeeds; a refused build is compared with the model at the refusing call (stream guard)",
     "the record theorems hold for all operation sequences; that the builder performs exactly the modelled sequence is tied by the correspondence (logged _add_file/_write_to_zip/_write_record calls vs model plan) on the generated projects",
     "names: ASCII project names; version text without '-' (true for PEP 440 normal form; a local-version label with '-'/'_' is the recorded finding D11 and is not generated)",
     "csv quoting as in CPython 3.12 with lineterminator '\\n' (',', '\"' and '\\n' force quoting)",
@@ -338,6 +339,16 @@ def check_project(ctx: core.Ctx, p: gen_project.Project, sde: str | None, stream
                         ctx.count("build-failed:" + b.error.split(":")[0])
                         ctx.case(key, nontrivial=False)
                         ctx.notes.append(f"build failed ({kind}/{api}): {b.error[:200]}")
+                        if "Several files would be written" in b.error and b.log is not None and b.log.ops:
+                            # the guarded writers (repo fix a8f41e9): the model must refuse the same call, and only that one
+                            ops = [pack("A", o[1], o[2], o[3], o[4]) if o[0] == "add" else pack("W", o[1], o[2], o[3])
+                                   for o in b.log.ops if o[0] != "record"]
+                            rr = core.run_driver([core.line("brunpartial", "-", *ops), core.line("brunpartial", "-", *ops[:-1])])
+                            ctx.count("guard:refused-on-both-sides" if rr[0][:2] == ["err", "runtime"] else "guard:model-accepts")
+                            bad = rr[0][:2] != ["err", "runtime"] or rr[1][0] != "ok"
+                            ctx.stream("guard", 1, 1 if bad else 0)
+                            if bad:
+                                ctx.disagree("guard", {"project": p.name, "kind": kind, "api": api, "last_op": b.log.ops[-1][:2]}, b.error[:120], rr)
                         continue
                     # hook contract: the returned name is the file in the output directory
                     if b.listing != [b.returned]:
